@@ -561,6 +561,13 @@ class RouteController:
                 self._neighbor_cache[route_entry.next_hop_ip] = next_hop
         else:
             logger.info("Neighbor %s does not exist", route_entry.next_hop_ip)
+            # The route may still be waiting for its next hop to be resolved: it must
+            # not be installed later, the kernel no longer has it.
+            pending = self._unresolved_arp_queries_cache.get(route_entry.next_hop_ip)
+            if pending and route_entry in pending:
+                pending.remove(route_entry)
+                if not pending:
+                    del self._unresolved_arp_queries_cache[route_entry.next_hop_ip]
 
     def _ping_missing_entries(self):
         """Pings missing entries every 10 seconds.
